@@ -116,7 +116,8 @@ Inductive mstep :=
 | MTxRename (mb : Z) (old new : str) (ps : list str) (t : Z)
                                                 (* BEGIN; INSERT INTO mailboxes (missing parents [ps]) *; UPDATE mailboxes SET name *; COMMIT
                                                    - ONE transaction since raven 0c3ee23 *)
-| MTxReparent (old new nx : Z)                  (* BEGIN; UPDATE mailboxes SET uid_next; UPDATE message_mailbox SET mailbox_id; COMMIT *)
+| MTxReparent (old new nx : Z)                  (* BEGIN; UPDATE mailboxes SET uid_next = MAX(uid_next, nx) (raven 8552cfb);
+                                                   UPDATE message_mailbox SET mailbox_id; COMMIT *)
 | MSubscribe (name : str)                       (* INSERT OR IGNORE INTO subscriptions *)
 | MUnsubscribe (name : str).                    (* DELETE FROM subscriptions *)
 
@@ -181,6 +182,12 @@ Definition rename_tx7 (s : store) (mb : Z) (old new : str) (ps : list str) (t : 
                             end) cs (Some s2)
   end.
 
+(** the transaction of renameInboxPerUser: the target keeps the larger of its
+    own uid_next and INBOX's [nx], then the links are re-parented *)
+Definition reparent_max (s : store) (old new nx : Z) : option store :=
+  let cur := match find_id s new with Some mt => mb_next mt | None => 1 end in
+  reparent (set_next s new (Z.max cur nx)) old new.
+
 (** a statement that fails (constraint, missing table) changes nothing *)
 Definition exec (d : dstore) (st : mstep) : dstore :=
   match st with
@@ -218,7 +225,7 @@ Definition exec (d : dstore) (st : mstep) : dstore :=
       with_st d (set_mboxes s1 (filter (fun m' => negb (mb_id m' =? mb)) (mboxes s1)))
   | MTxRename mb old new ps t =>
       if d_file d && (1 <=? d_schema d)%nat then opt_st d (rename_tx7 (d_st d) mb old new ps t) else d
-  | MTxReparent old new nx => opt_st d (reparent (set_next (d_st d) new nx) old new)
+  | MTxReparent old new nx => opt_st d (reparent_max (d_st d) old new nx)
   | MSubscribe n =>
       if existsb (str_eqb n) (d_subs d) then d
       else mkD (d_file d) (d_schema d) (d_st d) (d_msgs d) (d_subs d ++ [n]) (d_deliv d)
@@ -608,7 +615,7 @@ Definition labels (d : dstore) (st : mstep) : list str :=
                      ++ tx_end (is_some (rename_tx7 s mb old new ps t))
          end
   | MTxReparent old new nx =>
-      [L_BEGIN; S_ "U mailboxes"; S_ "U message_mailbox"] ++ tx_end (is_some (reparent (set_next s new nx) old new))
+      [L_BEGIN; S_ "U mailboxes"; S_ "U message_mailbox"] ++ tx_end (is_some (reparent_max s old new nx))
   | MSubscribe _ => [S_ "I subscriptions"]
   | MUnsubscribe _ => [S_ "D subscriptions"]
   end.
